@@ -5,3 +5,13 @@ FLOATS = ('Python float is treated as a mathematical real in every proved '
           'obligation (no rounding, no NaN/inf unless the code names it)')
 
 PROPS = {}
+
+PROPS['C15'] = dict(
+    level='other',
+    contracts=['base_builtins'],
+    drivers=[],
+    assumptions=[FLOATS],
+    trusted_base=[],
+    unreached=[],
+    explanation='',
+)
